@@ -80,9 +80,11 @@ theorem C10_response (little : Bool) (layoutsOf : Bytes → Except Dap4.Err (Lis
   unpackResponse_encode little layoutsOf dmr ss chunks hd hl hs hc hne hp
 
 /-- **Decode order = document order**: for every abstract DMR spec — groups nested to any depth, variables and
-    groups interleaved in any order (a variable declared after a sibling group included) — that is locally well
-    formed, whose `Dim` references resolve, and in which no two declarations (groups, variables; dimensions) share
-    a full path: the order in which `unpack_dap4_data` consumes the variables (`walk` order of the dataset tree
+    groups interleaved in any order (a variable declared after a sibling group included), names of variables and
+    groups any non-empty byte strings without `/` not starting with `dap4` (names that `_quote` changes included:
+    the `order` table is keyed by `_quote(key)`, the walked variables by their stored names) — that is locally
+    well formed, whose `Dim` references resolve, and in which no two declarations (groups, variables: stored,
+    i.e. quoted, full paths; dimensions) share a full path: the order in which `unpack_dap4_data` consumes the variables (`walk` order of the dataset tree
     assembled by `dmr_to_dataset`, groups created first, re-sorted by position in `get_variables`) is exactly
     the order in which the document declares them, and the variables met are exactly the declared ones with
     their declared types and shapes (`expectVars`, the right-hand side of `C11_parse`). -/
@@ -195,6 +197,9 @@ example : unpackVars false [⟨2, 2⟩] (serialise false [⟨2, [1, 65535], 7⟩
 example : serialise true [⟨2, [1, 65535], 7⟩] = [1, 0, 255, 255, 7, 0, 0, 0] := by decide
 
 example : distinctNodes demo := by unfold distinctNodes; decide
+example : decodeOrder (renderRoot [] "ds".toList qdemo) = .ok (expectVars qdemo) :=
+  C10_decode_order [] _ _ qdemo_ok qdemo_refs (by unfold distinctNodes; decide)
+    (by unfold distinctDims; decide)
 example : decodeOrder (renderRoot [] "ds".toList demo) = .ok (expectVars demo) :=
   C10_decode_order [] _ _ demo_ok demo_refs (by unfold distinctNodes; decide)
     (by unfold distinctDims; decide)
